@@ -117,7 +117,91 @@ def canon_numbers(line):
     return " ".join(out)
 
 
-def compare_lines(impl, model, mode, rtol=1e-9, atol_rel=1e-12):
+def _parse_num(t, i):
+    """parse one printed dual number starting at token i: returns (kind, real, names, grad, hess, next_i) or None"""
+    n = len(t)
+    try:
+        if t[i] == "D" and i + 3 < n and is_float_tok(t[i + 1]) and t[i + 2][0] == "v" and t[i + 3][0] == "d":
+            v = int(t[i + 2][1:]); d = int(t[i + 3][1:])
+            if v == d and i + 4 + 2 * v <= n:
+                pairs = [(t[i + 4 + 2 * k], t[i + 5 + 2 * k]) for k in range(v)]
+                if all(is_float_tok(p[1]) for p in pairs):
+                    return ("D", t[i + 1], [p[0] for p in pairs], [p[1] for p in pairs], None, i + 4 + 2 * v)
+        if t[i] == "D2" and i + 5 < n and is_float_tok(t[i + 1]) and t[i + 2][0] == "v" and t[i + 3][0] == "d" \
+                and t[i + 4][0] == "r" and t[i + 5][0] == "c":
+            v = int(t[i + 2][1:]); d = int(t[i + 3][1:]); r = int(t[i + 4][1:])
+            cs = t[i + 5][1:].split("-")
+            if v == d == r and all(int(c) == v for c in cs):
+                j = i + 6
+                if j + 2 * v < n and t[j + 2 * v] == "|" and j + 2 * v + 1 + v * v <= n:
+                    pairs = [(t[j + 2 * k], t[j + 1 + 2 * k]) for k in range(v)]
+                    h = t[j + 2 * v + 1: j + 2 * v + 1 + v * v]
+                    if all(is_float_tok(p[1]) for p in pairs) and all(is_float_tok(x) for x in h):
+                        return ("D2", t[i + 1], [p[0] for p in pairs], [p[1] for p in pairs],
+                                [[h[a * v + b] for b in range(v)] for a in range(v)], j + 2 * v + 1 + v * v)
+    except (ValueError, IndexError):
+        pass
+    return None
+
+
+_ZERO_TOK = "h0000000000000000"
+
+
+def align_numbers(a_line, b_line):
+    """For the tolerance comparison of numbers BY VARIABLE NAME: rewrite every dual number printed at the same
+    place of the two lines over the union of the two variable lists (sorted by name), a variable one side
+    does not carry counting as a zero derivative - so that a rounding-level derivative on one side and an
+    absent variable on the other are compared as numbers instead of as different shapes."""
+    ta, tb = a_line.split(), b_line.split()
+    oa, ob = [], []
+    i = j = 0
+    while i < len(ta) and j < len(tb):
+        pa = _parse_num(ta, i) if ta[i] in ("D", "D2") else None
+        pb = _parse_num(tb, j) if tb[j] in ("D", "D2") else None
+        if pa and pb and pa[0] == pb[0]:
+            names = sorted(set(pa[2]) | set(pb[2]))
+            for (p, out) in ((pa, oa), (pb, ob)):
+                idx = {nm: k for k, nm in enumerate(p[2])}
+                out += [p[0], p[1]]
+                for nm in names:
+                    out += [nm, p[3][idx[nm]] if nm in idx else _ZERO_TOK]
+                if p[0] == "D2":
+                    out.append("|")
+                    for x in names:
+                        for y in names:
+                            out.append(p[4][idx[x]][idx[y]] if (x in idx and y in idx) else _ZERO_TOK)
+            i, j = pa[5], pb[5]
+        else:
+            oa.append(ta[i]); ob.append(tb[j])
+            i += 1; j += 1
+    oa += ta[i:]; ob += tb[j:]
+    return " ".join(oa), " ".join(ob)
+
+
+def canon_pair(cfg, toks, a, b):
+    """the by-name view of two answer lines: exact rule - drop zero-derivative variables on each side;
+    tolerance rule - align both sides over the union of their variables"""
+    if not cfg.semantic_names:
+        return a, b
+    if cfg.mode_for(toks) == "close":
+        return align_numbers(a, b)
+    return canon_numbers(a), canon_numbers(b)
+
+
+_HANY = re.compile(r"h[0-9a-f]{16}")
+
+
+def max_abs_floats(text):
+    """largest finite magnitude among the float literals occurring anywhere in `text`"""
+    m = 0.0
+    for h in _HANY.findall(text):
+        v = f_of_hex(h)
+        if not (math.isnan(v) or math.isinf(v)):
+            m = max(m, abs(v))
+    return m
+
+
+def compare_lines(impl, model, mode, rtol=1e-9, atol_rel=1e-12, scale0=0.0):
     """True iff the two answer lines agree under the comparison rule `mode`
     ('exact' | 'close')."""
     if impl == model:
@@ -149,7 +233,7 @@ def compare_lines(impl, model, mode, rtol=1e-9, atol_rel=1e-12):
                 return False
         else:
             fl.append((f_of_hex(a), f_of_hex(b)))
-    scale = 0.0
+    scale = scale0
     for a, b in fl:
         for v in (a, b):
             if not (math.isnan(v) or math.isinf(v)):
@@ -286,13 +370,84 @@ def last_differs(lines, cfg, scratch):
     if il[n - 1] == "bad-op" or ml[n - 1] == "bad-op":
         return False  # a definition the failing line needs was removed: not a reproduction
     a, b = il[n - 1], ml[n - 1]
-    if cfg.semantic_names:
-        a, b = canon_numbers(a), canon_numbers(b)
+    sc = 0.0
+    if cfg.segment_scale:
+        sc = max([max_abs_floats(x) for x in lines] + [max_abs_floats(x) for x in il[:n]] +
+                 [max_abs_floats(x) for x in ml[:n]] + [0.0])
+    a, b = canon_pair(cfg, op, a, b)
     if cfg.compare_op:
         r = cfg.compare_op(op, a, b)
         if r is not None:
             return not r
-    return not compare_lines(a, b, cfg.mode_for(op), cfg.rtol, cfg.atol_rel)
+    return not compare_lines(a, b, cfg.mode_for(op), cfg.rtol, cfg.atol_rel, sc)
+
+
+_HTOK = re.compile(r"^h[0-9a-f]{16}$")
+_PERT = 2.0 ** -40
+
+
+def perturb_line(line, k):
+    """every float operand of a definition line moved by a relative 2^-40 (sign pattern k)"""
+    out = []
+    idx = 0
+    for tok in line.split():
+        if _HTOK.match(tok):
+            v = f_of_hex(tok)
+            if not (math.isnan(v) or math.isinf(v)):
+                sgn = (1.0, -1.0)[(idx + k) % 2] if k < 2 else (1.0, 1.0, -1.0)[idx % 3]
+                v = v * (1.0 + sgn * _PERT)
+                tok = "h" + struct.pack(">d", v).hex()
+            idx += 1
+        out.append(tok)
+    return " ".join(out)
+
+
+def cond_rescued(cfg, prefix, op, scratch):
+    """Is the tolerance mismatch on `op` a rounding-level difference amplified by ill-conditioning?  The MODEL is
+    re-run on the same op with every float operand of its definitions moved by a relative 2^-40 (three sign
+    patterns); the spread of each output entry measures how far a last-bit change upstream can move it.  The
+    mismatch is rounding-level iff every entry differs by no more than the tolerance scaled by that spread."""
+    toks = op.split()
+    base = prefix + [op]
+    il, ml, _, _ = run_lines(base, scratch, "_c")
+    if len(il) < len(base) or len(ml) < len(base):
+        return False
+    a, b = canon_pair(cfg, toks, il[-1], ml[-1])
+    ta, tb = a.split(), b.split()
+    if len(ta) != len(tb):
+        return False
+    spread = [0.0] * len(tb)
+    for k in range(3):
+        pert = [perturb_line(l, k) if cfg.is_def(l.split()) else l for l in prefix] + [op]
+        _, mlp, _, _ = run_lines(pert, scratch, "_c%d" % k)
+        if len(mlp) < len(base):
+            return False
+        _, bp = canon_pair(cfg, toks, il[-1], mlp[-1])
+        tp = bp.split()
+        if len(tp) != len(tb):
+            return False
+        for i, (x, y) in enumerate(zip(tb, tp)):
+            if is_float_tok(x) and is_float_tok(y):
+                fx, fy = f_of_hex(x), f_of_hex(y)
+                d = abs(fx - fy)
+                spread[i] = max(spread[i], d if not math.isnan(d) else float("inf"))
+            elif x != y:
+                return False
+    factor = 4.0 * cfg.rtol / _PERT
+    scale = max([abs(f_of_hex(x)) for x in ta + tb if is_float_tok(x) and not math.isnan(f_of_hex(x))
+                 and not math.isinf(f_of_hex(x))] or [0.0])
+    for i, (x, y) in enumerate(zip(ta, tb)):
+        if is_float_tok(x) and is_float_tok(y):
+            fx, fy = f_of_hex(x), f_of_hex(y)
+            if floats_close(fx, fy, scale, cfg.rtol, cfg.atol_rel):
+                continue
+            if math.isnan(fx) or math.isnan(fy) or math.isinf(fx) or math.isinf(fy):
+                return False
+            if abs(fx - fy) > factor * spread[i]:
+                return False
+        elif x != y:
+            return False
+    return True
 
 
 def shrink(prefix, failing, cfg, scratch, budget_s=60):
@@ -420,6 +575,7 @@ def check(prop, tier, seed):
             cov["impl_exit"] = ri
             cov["model_exit"] = rm
             n = 0
+            seg_scale = 0.0
             with open(ops_path) as fo, open(ip) as fi, open(mp) as fm:
                 for n, op in enumerate(fo):
                     il = fi.readline()
@@ -429,17 +585,21 @@ def check(prop, tier, seed):
                                            ml.rstrip("\n") or "<no answer: process ended>"))
                         break
                     il = " ".join(il.split()); ml = " ".join(ml.split())
-                    if cfg.semantic_names:
-                        il, ml = canon_numbers(il), canon_numbers(ml)
                     toks = op.split()
                     if not toks:
                         continue
+                    if cfg.segment_scale:
+                        if toks[0] == "reset":
+                            seg_scale = 0.0
+                        seg_scale = max(seg_scale, max_abs_floats(op), max_abs_floats(il), max_abs_floats(ml))
+                    il, ml = canon_pair(cfg, toks, il, ml)
                     stats["evaluations"] += 1
                     same = None
                     if cfg.compare_op:
                         same = cfg.compare_op(toks, il, ml)
                     if same is None:
-                        same = (il == ml) or compare_lines(il, ml, cfg.mode_for(toks), cfg.rtol, cfg.atol_rel)
+                        same = (il == ml) or compare_lines(il, ml, cfg.mode_for(toks), cfg.rtol, cfg.atol_rel,
+                                                           seg_scale if cfg.segment_scale else 0.0)
                     if not same or ((il == "bad-op" or ml == "bad-op") and not cfg.allow_badop):
                         if len(mismatches) < 200:
                             mismatches.append((n, op.rstrip("\n"), il, ml))
@@ -469,6 +629,7 @@ def check(prop, tier, seed):
         all_lines = None
         seen_keys = set()
         corr_only = []
+        cond_ok = []
         for (n, op, il, ml) in mismatches:
             if cfg.correspondence_only and cfg.correspondence_only(op.split(), il, ml):
                 # the model and the code disagree on an observable the property does not determine (wire
@@ -494,6 +655,12 @@ def check(prop, tier, seed):
                 if prefix[i].strip() == "reset":
                     prefix = prefix[i + 1:]
                     break
+            if cfg.cond_rescue and cfg.mode_for(op.split()) == "close" and cond_rescued(cfg, prefix, op, scratch):
+                # a rounding-level difference amplified by cancellation: within the correspondence's tolerance
+                # once the tolerance is scaled by the op's own conditioning (measured with the model)
+                cond_ok.append(n)
+                seen_keys.discard(key)
+                continue
             keep, repro = shrink(prefix, op, cfg, scratch)
             lines = keep + [op]
             il2, ml2, _, _ = run_lines(lines, scratch)
@@ -547,6 +714,7 @@ def check(prop, tier, seed):
                                 name="correspondence_broken")
             violations.append((path, "no-failing-input-found"))
         cov["correspondence_only_mismatches"] = len(corr_only)
+        cov["conditioning_scaled_agreements"] = len(cond_ok)
         if failed_ths:
             # a proof obligation no longer checks; was a failing input found?
             names = ", ".join(t["name"] for t in failed_ths)
@@ -616,13 +784,17 @@ def replay(path):
             a = il[i] if i < len(il) else "<no answer>"
             b = ml[i] if i < len(ml) else "<no answer>"
             same = None
-            if cfg and cfg.semantic_names:
-                a, b = canon_numbers(a), canon_numbers(b)
+            if cfg and op.split():
+                a, b = canon_pair(cfg, op.split(), a, b)
             if cfg and cfg.compare_op:
                 same = cfg.compare_op(op.split(), a, b)
             if same is None:
+                sc = 0.0
+                if cfg and cfg.segment_scale:
+                    sc = max([max_abs_floats(x) for x in lines[:i + 1]] + [max_abs_floats(x) for x in il[:i + 1]] +
+                             [max_abs_floats(x) for x in ml[:i + 1]] + [0.0])
                 same = compare_lines(a, b, cfg.mode_for(op.split()) if cfg else "exact",
-                                     cfg.rtol if cfg else 1e-9, cfg.atol_rel if cfg else 1e-12)
+                                     cfg.rtol if cfg else 1e-9, cfg.atol_rel if cfg else 1e-12, sc)
             why = cfg.oracle(op.split(), a) if (cfg and cfg.oracle and op.split()) else None
             if not same or why or i == len(lines) - 1:
                 print("op:    %s\nimpl:  %s\nmodel: %s\n%s" % (op[:300], a[:300], b[:300], "AGREE" if same else "DIFFER"))
